@@ -80,18 +80,6 @@ pub fn c13_sqrt_domain() {
     reached();
 }
 
-//@ id=C13 tier=quick to=900 cfg=std desc="ground (pinned): cbrt(+0) == 0 and cbrt(-0) == 0 exactly"
-#[cfg_attr(kani, kani::proof)]
-pub fn c13_cbrt_zero() {
-    if !crate::gen_cells::known("c13_cbrt_zero") {
-        let z = gtf(0.0, 0.0).cbrt();
-        assert!(z.hi() == 0.0 && z.lo() == 0.0);
-        let zn = gtf(-0.0, 0.0).cbrt();
-        assert!(zn.hi() == 0.0 && zn.lo() == 0.0);
-    }
-    reached();
-}
-
 //@ id=C13 tier=thorough to=2400 cfg=std desc="ATTEMPT ground (pinned): cbrt(8) and cbrt(-27) valid with high word 2 resp. -3 and a low word below 48*2^-106 (real Newton steps: double-double division chains)"
 #[cfg_attr(kani, kani::proof)]
 pub fn c13_cbrt_ground() {
